@@ -463,6 +463,33 @@ func checkMain(args []string) int {
 	}
 
 	// ---- concolic cross-check of a sample of completed paths
+	// ---- cross-solver diff (thorough): a sample of completed paths is re-executed with another solver
+	// (z3 4.8.12, one process per path) and must discharge the same assertions
+	crossChecked, crossDisagree := 0, 0
+	if tier == "thorough" && os.Getenv("VERIF_NO_CROSS") == "" {
+		for _, r := range runs {
+			fn := P.findFunc(pkgPath(r.spec.Pkg), r.spec.Func)
+			for _, pth := range r.res.CrossPaths {
+				if pth.TimerNondet {
+					continue
+				}
+				alt := P.Explore(RunConfig{Entry: fn, Workers: 1, Solver: "z3", TimeoutMs: 20000, MaxSteps: 3000000, MaxPaths: 1, Params: r.params, OnlyPrefix: pth.Decisions})
+				if alt.Paths != 1 || alt.NUnknown > 0 || len(alt.EngineErrors) > 0 {
+					continue // the other solver gave no verdict: nothing to compare
+				}
+				crossChecked++
+				if len(alt.Fails) != len(pth.Fails) {
+					crossDisagree++
+					fmt.Printf("SOLVER-DISAGREEMENT %s path %v: z3-new found %d failing assertion(s), z3 4.8.12 %d\n", r.spec.Func, pth.Decisions, len(pth.Fails), len(alt.Fails))
+				}
+			}
+		}
+		if crossDisagree > 0 {
+			problems = append(problems, fmt.Sprintf("%d solver disagreement(s) between z3 5.1.0 and z3 4.8.12", crossDisagree))
+		}
+		fmt.Printf("[%s] cross-solver diff: %d sampled path(s) re-decided by z3 4.8.12, %d disagreement(s)\n", prop, crossChecked, crossDisagree)
+		evCrossChecked = crossChecked
+	}
 	validated, mismatches := 0, 0
 	if doReplay {
 		rng := rand.New(rand.NewSource(seed))
